@@ -19,7 +19,7 @@ Strs(A, n) == UNION {[1..k -> A] : k \in 0..n}
 AllStrs == Strs(Alpha, MaxLen)
 SmallStrs == Strs(SmallAlpha, MaxLen)
 Seps == Strs({CA, COMMA, GRIN}, 2)
-Pads == {<<>>, <<CA>>, <<CA, EA>>, <<GRIN, COMMA, CA>>}
+Pads == {<<>>, <<CA>>, <<CA, EA>>, <<GRIN, COMMA, CA>>, <<COMMA, CA>>, <<CA, CA>>, <<CA, COMMA>>}
 
 Half(n) == Num(n, 2)
 Params == {IntV(n) : n \in (0 - ParamRange)..ParamRange} \cup {Half(1), Half(0 - 1), Half(3), Half(0 - 3), Half(5)}
@@ -40,6 +40,17 @@ Init == /\ \/ \E s \in AllStrs, nm \in {"length", "uppercase", "lowercase", "tri
            \/ \E s \in SmallStrs, c \in Seps, lim \in {IntV(0), IntV(1), IntV(2), IntV(5), IntV(0 - 1), Half(3)} : case = StrCase(F("split", <<S, NStr(c), NNum(lim)>>), s)
            \/ \E s \in SmallStrs, c \in Seps, r \in Pads : case = StrCase(F("replace", <<S, NStr(c), NStr(r)>>), s)
            \/ \E s \in SmallStrs, c \in Seps, lim \in {IntV(0), IntV(1), IntV(2), IntV(0 - 1)} : case = StrCase(F("replace", <<S, NStr(c), NStr(<<95>>), NNum(lim)>>), s)
+           \* U+FFFD inside a longer string is an ordinary character of the URL codec (only the string that is just U+FFFD is refused)
+           \/ \E s \in {<<65533>>, <<CA, 65533>>, <<65533, CA>>, <<65533, 65533>>, <<EA, 65533, SP>>} :
+                  \/ case = StrCase(F("encodeUrlComponent", <<S>>), s)
+                  \/ (s # <<65533>> /\ case = StrCase(NCmpOp("=", F("decodeUrlComponent", <<F("encodeUrlComponent", <<S>>)>>), S), s))
+                  \/ case = StrCase(F("length", <<S>>), s) \/ case = StrCase(NCmpOp("=", F("base64decode", <<F("base64encode", <<S>>)>>), S), s)
+           \* overlapping occurrences: replacement, split and search resume after the END of the previous match
+           \/ \E n \in 0..5, pat \in {<<CA>>, <<CA, CA>>, <<CA, CA, CA>>, <<EA, EA>>}, rep \in {<<COMMA, CA>>, <<CA, CA>>, <<CA, COMMA>>, <<>>, <<CA>>, <<EA, EA>>, <<95, EA>>} :
+                  \/ case = StrCase(F("replace", <<S, NStr(pat), NStr(rep)>>), [i \in 1..n |-> pat[1]])
+                  \/ case = StrCase(F("replace", <<S, NStr(pat), NStr(rep), NNum(IntV(2))>>), [i \in 1..n |-> pat[1]])
+                  \/ case = StrCase(F("split", <<S, NStr(pat)>>), [i \in 1..n |-> pat[1]])
+                  \/ case = StrCase(F("substringAfter", <<S, NStr(pat)>>), [i \in 1..n |-> pat[1]])
            \* whitespace normalisation
            \/ \E s \in Strs({CA, SP, TAB, 10}, MaxLen + 1) : case = StrCase(F("trim", <<S>>), s)
            \* the inverse laws as JSONata equalities
